@@ -44,3 +44,18 @@ pub fn encode_value_as_key(value: &crate::OwnedValue) -> Vec<u8> {
     crate::Database::encode_value_as_key(value, &mut buf);
     buf
 }
+
+/// (pending commits in the group-commit queue, flush flag) of a database.
+pub fn group_commit_state(db: &crate::Database) -> (usize, bool) {
+    let q = &db.shared.group_commit_queue;
+    (q.pending_count(), q.verif_flush_in_progress())
+}
+
+/// Table id the catalog assigned to `schema.table` (WAL frames carry it as file id).
+pub fn table_id(db: &crate::Database, schema: &str, table: &str) -> Option<u32> {
+    let lookup = db.shared.table_id_lookup.read();
+    lookup
+        .iter()
+        .find(|(_, (s, t))| s == schema && t == table)
+        .map(|(id, _)| *id)
+}
